@@ -522,12 +522,17 @@ class ObservedDecoder(R.Decoder):
     if self.mode in ("pop", "paint") and any(c is not None for c in self._memory()[det["row"]]):
       self.overwrites += 1
       self.first_overwrite = self.first_overwrite or self.mode
-    if "roll-pac-5-11" in self.quirks and self.mode == "roll" and 5 <= det["row"] <= 11:
-      # deviation: such a PAC only moves the base row; column 1, pen unchanged
-      self._set_base(det["row"])
-      self.row = self.base
-      self.col = 0
-      return "PAC"
+    if self.mode == "roll":
+      named = det["row"]
+      if "roll-base-15" in self.quirks:
+        # deviation: the base row of roll-up captions is always row 15, whatever row the PAC names
+        det = dict(det, row=R.ROWS)
+      if "roll-pac-5-11" in self.quirks and 5 <= named <= 11:
+        # deviation: such a PAC only moves the base row; column 1, pen unchanged
+        self._set_base(det["row"])
+        self.row = self.base
+        self.col = 0
+        return "PAC"
     self.edm_no_pac = False
     return super()._pac(det)
 
@@ -979,8 +984,8 @@ def config_of(name):
   return SccReaderConfiguration(text_align=TextAlignment.from_value(name))
 
 
-HYPOTHESES = ["lazy-depth", "dup", "edm", "cross", "relrows", "roll-pac-5-11", "paint-space-pair-unstyled", "roll-row-after-edm-lost"]
-QUIRKS = {"lazy-depth", "roll-pac-5-11", "paint-space-pair-unstyled", "roll-row-after-edm-lost"}
+HYPOTHESES = ["lazy-depth", "dup", "edm", "cross", "roll-base-15", "relrows", "roll-pac-5-11", "paint-space-pair-unstyled", "roll-row-after-edm-lost"]
+QUIRKS = {"lazy-depth", "roll-base-15", "roll-pac-5-11", "paint-space-pair-unstyled", "roll-row-after-edm-lost"}
 READINGS = [frozenset(), frozenset({"lazy-depth"})]      # accepted readings of the standard (never reported)
 HYP_TEXT = {
   "dup": ("time:early-after-doubled-code", C_TIME,
@@ -994,6 +999,9 @@ HYP_TEXT = {
             "be shown ahead across line boundaries)"),
   "relrows": ("row-position:{mode}", C_ROWS,
               "the rows have the right content, order and spacing but not the row numbers of the decoder ({mode} mode)"),
+  "roll-base-15": ("roll-up:base-row-ignored", C_ROWS,
+                   "roll-up captions are always shown with row 15 as base row, whatever row the PAC names (the document conforms when "
+                   "every roll-up PAC is read as a PAC for row 15)"),
   "roll-pac-5-11": ("roll-up:pac-rows-5-11-ignored", C_TEXT,
                     "in roll-up mode the indent and the colour/italics/underline of a PAC for rows 5-11 are ignored (the document "
                     "conforms when such a PAC only selects the base row)"),
